@@ -7,7 +7,7 @@ package main
 // ops:   case N
 //        create NAMESPEC                 NewFileWriterWithName on a fresh path with that name, then Close
 //        f HEX EXPECTEDNAMESPEC KIND     a file's bytes (made by the generator with the real writer); stored in the
-//                                        case directory; KIND ∈ v3 v3app v3open v3noname v2 v2app v2resv v2nometa
+//                                        case directory; KIND ∈ v3 v3app v3open v3noname v2 v2app v2resv v2nometa v3cmp v2cmp (rewritten by the real Compactor)
 //        scan                            explorer.New(caseDir).Scan, then the full listing
 // reply: ok | rej longname
 //        name HEX | name err KIND
@@ -247,6 +247,11 @@ func c29Gen(rng *rand.Rand, tier string, w *bufio.Writer) {
 				}
 				_ = fw.Close()
 			}
+		case "v3cmp":
+			_ = fw.Close()
+			if _, err := v2.NewCompactor(p, bs, 0).ForceCompact(); err != nil {
+				return true
+			}
 		default:
 			_ = fw.Close()
 		}
@@ -267,6 +272,11 @@ func c29Gen(rng *rand.Rand, tier string, w *bufio.Writer) {
 					_ = fw.WriteEntry(e)
 				}
 				_ = fw.Close()
+			}
+		}
+		if kind == "v2cmp" { // compaction upgrades a legacy file to V3, keeping the metadata name
+			if _, err := v2.NewCompactor(p, 256, 0).ForceCompact(); err != nil {
+				return
 			}
 		}
 		exp := name
@@ -290,6 +300,8 @@ func c29Gen(rng *rand.Rand, tier string, w *bufio.Writer) {
 	}
 	v3([]byte("dom/realm/swamp"), "v3")
 	legacy([]byte("old/style/swamp"), "v2")
+	v3([]byte("dom/realm/compacted"), "v3cmp")
+	legacy([]byte("old/style/compacted"), "v2cmp")
 	fmt.Fprintln(w, "scan")
 	// ---- random directories
 	cases, per := 40, 14
@@ -299,9 +311,18 @@ func c29Gen(rng *rand.Rand, tier string, w *bufio.Writer) {
 	for c := 0; c < cases; c++ {
 		fmt.Fprintf(w, "case %d\n", caseNo)
 		caseNo++
+		var used [][]byte
 		for i, n := 0, 1+rng.Intn(per); i < n; i++ {
 			name := c29Name(rng)
-			switch k := rng.Intn(20); {
+			if len(used) > 0 && rng.Intn(6) == 0 { // two files claiming the same swamp name: the index keeps one entry
+				name = used[rng.Intn(len(used))]
+			}
+			used = append(used, name)
+			switch k := rng.Intn(24); {
+			case k >= 22:
+				legacy(name, "v2cmp")
+			case k >= 20:
+				v3(name, "v3cmp")
 			case k < 6:
 				v3(name, "v3")
 			case k < 10:
